@@ -164,3 +164,94 @@ Proof.
   apply (self_recursive_cte_is_error no_call no_join ex_d rec_outer "c"
            (sel [] (FTable ["c"] "") None [IStar]) [] "" [] "" n); reflexivity.
 Qed.
+
+(* ---------- the chain declared in the other order: some ordering is a well-scoped chain ---------- *)
+Example chain_reversed_theorem_applies :
+  evals no_call no_join (plain ex_d) (JStmt (SSelect (set_with chain_outer (rev chain_w))))
+        (Ok (VArr [VObj [("id", VNum 3%float)]])).
+Proof.
+  apply (proj2 (cte_chain_any_order no_call no_join ex_d d2 (set_with chain_outer (rev chain_w)) chain_w "c2"
+                  (Ok (VArr [VObj [("id", VNum 3%float)]]))
+                  (Permutation.Permutation_sym (Permutation.Permutation_rev chain_w))
+                  (proj1 chain_ok_met) staged_chain_met (proj2 chain_ok_met) ltac:(discriminate))).
+  split; [discriminate|]. exists 2%nat. vm_compute. reflexivity.
+Qed.
+
+(* ---------- why the outer query must not navigate back with `<-` (in the MODEL) ---------- *)
+(* WITH c AS (SELECT id FROM t WHERE n1 >= 2) SELECT id, (SELECT id FROM `<-`.c) AS x FROM c :
+   in the model the document handed to the subquery under `<-` does not hold the CTE, in the staged
+   run it holds the materialised rows *)
+Definition bk_inner : stmt :=
+  SSelect (sel [] (FTable ["t"] "") (Some (ECmp OpGe (col "n1") (ENum 2%float))) [IExpr (col "id") "id"]).
+Definition bk_sub : stmt := SSelect (sel [] (FTable ["<-"; "c"] "") None [IExpr (col "id") "id"]).
+Definition bk_outer : select stmt :=
+  sel [("c", bk_inner)] (FTable ["c"] "") None [IExpr (col "id") "id"; IExpr (ESub bk_sub) "x"].
+
+Example backref_to_cte_differs :
+  avoids ["c"] bk_inner = true /\ blind_select bk_outer = false /\
+  exec no_call no_join 4 (plain ex_d) (JStmt (SSelect bk_outer)) =
+    Ok (VArr [VObj [("id", VNum 1%float); ("x", VArr [])]; VObj [("id", VNum 3%float); ("x", VArr [])]]) /\
+  stage no_call no_join 3 "c" bk_inner bk_outer ex_d =
+    Ok (VArr [VObj [("id", VNum 1%float); ("x", VArr [VObj [("id", VNum 1%float)]; VObj [("id", VNum 3%float)]])];
+              VObj [("id", VNum 3%float); ("x", VArr [VObj [("id", VNum 1%float)]; VObj [("id", VNum 3%float)]])]]).
+Proof. vm_compute. repeat split. Qed.
+
+(* ---------- the theorems' premises are met by the examples above ---------- *)
+
+Example cte_is_staged_applies :
+  exec no_call no_join 4 (plain ex_d) (JStmt (SSelect path_outer)) =
+  stage no_call no_join 3 "c" path_inner path_outer ex_d.
+Proof.
+  apply (cte_is_staged no_call no_join 3 ex_d "c" path_inner path_outer ["items"] "");
+    try reflexivity.
+  intros v Hv. vm_compute in Hv. inversion Hv. eauto.
+Qed.
+
+Example derived_is_staged_applies :
+  exec no_call no_join 3 (plain ex_d) (JStmt (SSelect derived_outer)) =
+  let! v := exec no_call no_join 2 (plain ex_d) (JStmt q1) in
+  exec no_call no_join 3 (plain (bind_doc ex_d "m" v))
+       (JStmt (SSelect (set_from derived_outer (FTable ["m"] "d")))).
+Proof.
+  apply (derived_is_staged no_call no_join 2 ex_d derived_outer q1 "d" "m"); try reflexivity.
+  intros v Hv. vm_compute in Hv. inversion Hv. eauto.
+Qed.
+
+Definition kv_of (r : value) : row := match r with VObj kv => kv | _ => [] end.
+
+(* EXISTS on the third row: C07_exists applies, and the element-wise reading says "true" *)
+Example exists_theorem_applies :
+  let cur := scope (kv_of row3) ex_doc in
+  e_exists (mk_env (exec no_call no_join 2) no_call no_join (plain ex_d) exists_outer []) (SSelect exists_sub) cur =
+  exists_sem (fun r => eval_cond (mk_env (exec no_call no_join 1) no_call no_join (plain cur) exists_sub [])
+                                 r (s_where exists_sub))
+             cur [it 5%float "b"; it 2%float "c"] /\
+  exists_sem (fun r => eval_cond (mk_env (exec no_call no_join 1) no_call no_join (plain cur) exists_sub [])
+                                 r (s_where exists_sub))
+             cur [it 5%float "b"; it 2%float "c"] = Ok true.
+Proof.
+  intros cur. split.
+  - apply (exists_star no_call no_join 1 (plain ex_d) exists_outer [] cur exists_sub "items" []).
+    + exact exists_shape_met.
+    + reflexivity.
+    + reflexivity.
+    + vm_compute. reflexivity.
+  - vm_compute. reflexivity.
+Qed.
+
+(* id IN (SELECT p FROM items) on the first row: C07_in_subquery applies, both polarities *)
+Example in_subquery_theorem_applies neg :
+  eval (mk_env (exec no_call no_join 2) no_call no_join (plain ex_d) (in_outer neg) []) (kv_of row1)
+       (EInSub neg (col "id") in_sub) =
+  Ok (RVal (VBool (xorb neg (member_sem (VNum 1%float) [VNum 1%float])))) /\
+  member_sem (VNum 1%float) [VNum 1%float] = true.
+Proof.
+  split; [|vm_compute; reflexivity].
+  apply (in_subquery no_call no_join 2 (plain ex_d) (in_outer neg) [] (kv_of row1) neg (col "id") in_sub
+           (RCol ["id"]) (VNum 1%float) [VObj [("p", VNum 1%float)]] [VNum 1%float]).
+  - reflexivity.
+  - vm_compute. reflexivity.
+  - vm_compute. reflexivity.
+  - reflexivity.
+  - intros c [<-|[]]. eexists. vm_compute. reflexivity.
+Qed.
